@@ -8,7 +8,7 @@
    a - n*b where n = trunc(a / b) computed without rounding, so the result has the SIGN OF THE DIVIDEND a
    (fmod(-30, 360) = -30, not 330) and magnitude < |b|; fmod(+-0, b) = +-0; fmod(a, inf) = a;
    fmod(inf, b) = fmod(a, 0) = NaN.  (np.mod / Python % would instead give the sign of the divisor.) *)
-From Coq Require Import ZArith PrimFloat Uint63 FloatOps SpecFloat.
+From Coq Require Import ZArith QArith PrimFloat Uint63 FloatOps SpecFloat.
 From FEC Require Import Generated.HeadingConsts.   (* Heading_pi : math.pi of the implementation's interpreter *)
 Open Scope float_scope.
 
@@ -69,4 +69,13 @@ Definition Heading_show (f : float) : Z * Z * Z :=
   | S754_finite s m e => ((if s then 3 else 2)%Z, Zpos m, e)
   | S754_infinity s => ((if s then 5 else 4)%Z, 0%Z, 0%Z)
   | S754_nan => (6%Z, 0%Z, 0%Z)
+  end.
+
+(* the exact rational value of a finite binary64 (0 for NaN / infinities); links the model to the exact SPEC *)
+Definition Heading_dyadQ (z e : Z) : Q :=
+  if (0 <=? e)%Z then inject_Z (z * 2 ^ e) else Qmake z (Z.to_pos (2 ^ (- e))).
+Definition Heading_F2Q (f : float) : Q :=
+  match Prim2SF f with
+  | S754_finite s m e => Heading_dyadQ (if s then Zneg m else Zpos m) e
+  | _ => 0%Q
   end.
